@@ -193,6 +193,7 @@ def corpus():
     for off, flen in ((0, 10), (3, 10), (10, 3), (7, 7), (0, 0), (0, 1), (U64 - 1, 1), (1, U64 - 1)):
         out.append(srref_line(r0, ("DTN", 1, b"//n/a"), 5, 1, off, flen))
         out.append(srref_line(r0, ("IPN", 2, 23, 42), 1000, 0, off, flen))
+        out.append(srref_line(r0, ("DTN", 1, b"//n/a"), 5, 1, off, flen, enc=True))
     # long source texts that agree on a long prefix (250..300 characters) and differ only behind it: the whole source is part of the ID
     for L in (20, 240, 247, 248, 249, 250, 256, 300, 1000):
         a, c = ("DTN", 1, b"//" + b"n" * L + b"/a"), ("DTN", 1, b"//" + b"n" * L + b"/c")
@@ -214,7 +215,7 @@ def corpus():
 _SR = {}
 
 
-def srref_line(rng, src=None, t=None, q=None, off=None, flen=None):
+def srref_line(rng, src=None, t=None, q=None, off=None, flen=None, enc=False):
     """a status report as a peer puts it on the wire (Python reference encoding) about the bundle (src, t, q[, fragment off of flen])"""
     from props import c12
     src = src if src is not None else rnd_src(rng)
@@ -227,7 +228,7 @@ def srref_line(rng, src=None, t=None, q=None, off=None, flen=None):
             off, flen = 0, 0
     items = [(i == rng.randrange(4), 0, False) for i in range(4)]
     rec = ("SR", items, rng.choice([0, 1, 5]), src, t, q, off, flen)
-    l = "SRREF " + xhex(c12.ref_record(rec))
+    l = ("SRREFE " if enc else "SRREF ") + xhex(c12.ref_record(rec))
     _SR[l] = (src, t, q, off, flen)
     return l
 
@@ -237,6 +238,7 @@ def cases(rng, tier):
     out = []
     for _ in range(1500 * scale):                          # received status reports: which bundle do they refer to
         out.append(srref_line(rng))
+        out.append(srref_line(rng, enc=True))          # .. and still after this node re-encoded the record (store / forward)
     for _ in range(700 * scale):
         out += resplit_pairs(rng)
     for _ in range(3000 * scale):                          # collisions of the known class and their near misses
@@ -294,7 +296,7 @@ def oracle(line, out, mode):
         if same_ident and not same_id:
             return "the ID depends on something besides source, creation timestamp and fragment offset"
         return None
-    if cmd == "SRREF":
+    if cmd in ("SRREF", "SRREFE"):
         if line not in _SR:
             return None
         src, t, q, off, flen = _SR[line]
